@@ -42,7 +42,19 @@ def gen_cases(rnd, thorough):
         for n in (0, 1, 17, 64):
             for rrc in (1, 12, 28, 65535):
                 cs.append(case(rnd, "wrap", et, n, rnd.choice([0, 1, 4, 5]), rnd.choice(SEQS), rnd.choice([22, 24]), rrc=rrc))
-    return cs
+    # the same key octets, usage, flags, sequence number and message under every etype whose keys have that length, in both orders (a
+    # token is a function of what it is built from: nothing remembered from a token of another etype may change it)
+    shared = []
+    for grp in ((17, 19, 23), (18, 20)):
+        for rep in range(4 if not thorough else 24):
+            order = grp if rep % 2 == 0 else tuple(reversed(grp))
+            base = case(rnd, "mic", order[0], [4, 17, 64, 0][rep % 4], rnd.randrange(8), rnd.choice(SEQS), GSS_USAGES[rep % 4])
+            for _ in range(2):
+                for et in order:
+                    for kind in ("mic", "wrap"):
+                        shared.append(dict(base, et=et, kind=kind))
+    # they come first (and once more at the end): whatever the library remembers, it remembers from the start of a process
+    return shared + cs + shared
 
 
 def bit_class(kind, n, ck, i):
